@@ -57,6 +57,23 @@ def run(pid, tier, seed, root, repo, env):
                 out["fails"].append({"prop": "C20", "what": "long-game-aborts", "start": "harness/target/release/longgame play %d" % n, "actions": [],
                                      "detail": "exit status %d: %s" % (rc, (se or so)[-600:])})
                 break
+        # the same game in an unoptimised build: a recursion that only the optimiser turns into a loop
+        # (tail calls) is still a recursion of the crate
+        p = subprocess.run(["cargo", "build", "--offline", "--bin", "longgame"], cwd=harness, stdout=subprocess.PIPE, stderr=subprocess.STDOUT, text=True, env=env)
+        if p.returncode != 0:
+            out["broken"].append({"kind": "harness-build", "what": p.stdout[-1500:]})
+            return out
+        dexe = os.path.join(harness, "target", "debug", "longgame")
+        n = 100000 if tier == "quick" else 300000
+        if not out["fails"]:
+            rc, so, se = _run([dexe, "play", str(n)], env, 3600)
+            out["evals"] += 1
+            out["nontrivial"] += 1
+            out["counts"]["C20-turns-played-unoptimised"] = n
+            out["samples"].append({"debug longgame play %d" % n: so.strip()[:300], "exit": rc})
+            if rc != 0:
+                out["fails"].append({"prop": "C20", "what": "long-game-aborts-in-unoptimised-build", "start": "harness/target/debug/longgame play %d" % n, "actions": [],
+                                     "detail": "exit status %d: %s" % (rc, (se or so)[-600:])})
         rounds = 25 if tier == "quick" else 200
         rc, so, se = _run([exe, "race", "120000", str(rounds)], env, 3600)
         out["evals"] += rounds
